@@ -463,6 +463,14 @@ def chain_subslot(rng, n):
                 st = p.start + timedelta(days=rng.randint(0, 3), hours=rng.choice([9, 10, 13, 14]),
                                          seconds=rng.choice([G // 2, G // 4, G // 3, 600, 0]) // 60 * 60)
             ts.append(p.add_task("t%d" % k, effort=eff_secs, alloc=[r], deps=deps, prio=prio, start=st))
+        if rng.random() < 0.35:
+            # a team (equal efficiencies) that starts at a bound inside a slot; the predecessor was worked by somebody else
+            mates = [p.add_res("m%d" % k) for k in range(rng.choice([2, 2, 3]))]
+            lone = p.add_res("lone")
+            half = next(u for u in (G // 2, G // 3, 600, 420) if u % 60 == 0)
+            pre = p.add_task("lead", effort=G * rng.randint(0, 2) + half, alloc=[lone], prio=900)
+            p.add_task("crew", effort=G * rng.randint(1, 4) + rng.choice([0, half]), alloc=mates, deps=[(pre, False, rng.choice([0, 0, 420]))], prio=850)
+            p.add_task("after", effort=G, alloc=[rng.choice(mates)], prio=100)
         out.append(("sub%04d" % i, p))
     return out
 
@@ -782,6 +790,40 @@ def dags(rng, n, alap_share=0.3):
                     # a deadline on a container that is itself inside one (with or without a deadline further up)
                     c.end = start + timedelta(days=rng.randint(18, 30), hours=rng.choice([12, 17]))
         out.append(("dag%04d" % i, p))
+    return out
+
+
+def jit(rng, n):
+    """C08 / C04 / C16: forward projects with a few backward ANCHORS (scheduling alap + an end of their own) whose predecessors
+    state no direction: they are pulled back to finish just in time -- transitively, through leaf predecessors only, and not
+    past a forward task that has a start to keep.  Other tasks of the project stay forward."""
+    out = []
+    for i in range(n):
+        G = rng.choice([3600, 1800])
+        start = datetime(2025, 5, 5)
+        p = Proj(start=start, G=G, length="+6w")
+        rs = [p.add_res("r%d" % k) for k in range(rng.randint(2, 3))]
+        for a in range(rng.randint(1, 2)):
+            chain = []
+            box = p.add_task("wp%d" % a, start=start + timedelta(days=rng.randint(0, 3), hours=9)) if rng.random() < 0.3 else None
+            for k in range(rng.randint(1, 4)):
+                kw = {}
+                x = rng.random()
+                if x < 0.15:
+                    kw["start"] = start + timedelta(days=rng.randint(0, 4), hours=rng.choice([9, 13]))     # has a start to keep: stays forward
+                elif x < 0.3:
+                    kw["mode"] = "asap"                                                                # says asap but has no start: pulled back all the same
+                deps = [(chain[-1], False, rng.choice([0, 0, G]))] if chain else []
+                if chain and len(chain) > 1 and rng.random() < 0.3:
+                    deps.append((chain[0], False, 0))
+                chain.append(p.add_task("s%d_%d" % (a, k), parent=box if (box and rng.random() < 0.6) else None, effort=G * rng.randint(2, 12),
+                                        alloc=[rng.choice(rs)], deps=deps, prio=rng.choice([None, 600]), **kw))
+            anchor = p.add_task("ship%d" % a, effort=G * rng.randint(1, 6), alloc=[rng.choice(rs)], mode="alap",
+                                end=start + timedelta(days=rng.randint(15, 30), hours=rng.choice([12, 17])),
+                                deps=[(chain[-1], False, rng.choice([0, G, 86400]))] + ([(box, False, 0)] if box and rng.random() < 0.3 else []))
+        for k in range(rng.randint(1, 3)):
+            p.add_task("other%d" % k, effort=G * rng.randint(3, 20), alloc=[rng.choice(rs)], prio=rng.choice([None, 300, 800]))
+        out.append(("jit%04d" % i, p))
     return out
 
 
@@ -1152,10 +1194,12 @@ def year_end(rng, n):
         vac = []
         a = datetime(year, 12, rng.choice([21, 23, 24, 27, 30, 31]))
         b = datetime(year + 1, 1, rng.choice([1, 2, 3, 6, 9]))
+        if rng.random() < 0.2:
+            b = datetime(year + 1, 2, rng.choice([1, 2, 5]))      # a long shutdown: all of January lies strictly inside it
         if rng.random() < 0.8:
             vac.append((a, b))
         gl = [(datetime(year + 1, 1, 1), None)] if rng.random() < 0.4 else []
-        p = Proj(start=start, G=G, length="+8w", vac=vac, gleaves=gl)
+        p = Proj(start=start, G=G, length="+12w", vac=vac, gleaves=gl)
         rs = []
         for k in range(rng.randint(1, 3)):
             hours = rng.choice([None, std_hours(480, 960), std_hours(540, 1080, range(6)), {d: [(1320, 360)] for d in range(5)}, std_hours(360, 840, range(7))])
@@ -1862,6 +1906,11 @@ def dup_leaf_ids(rng, n):
                 prev = t
             if ("pack" not in names):
                 kids[(top.name, "pack")] = p.add_task("pack", parent=top, effort=G * rng.randint(20, 60), alloc=[rng.choice(rs)])
+            # ... and the top-level children use the very same reference text ('!<first name>') as the nested ones
+            first_top = kids[(top.name, names[0])]
+            pk = kids[(top.name, "pack")]
+            if pk is not first_top and not any(d[0] is first_top for d in pk.deps):
+                pk.deps.append((first_top, False, rng.choice([0, G])))
         join = p.add_task("integrate", effort=G * rng.randint(4, 16), alloc=[rng.choice(rs)])
         nm = rng.choice(names)
         for c in conts:
@@ -2092,6 +2141,13 @@ def odd_inputs():
                 'task t "T" { effort 24h start 2025-06-12-09:00 allocate j { alternative s } }\n'))
     out.append(("alt_all_day_runs_out", 'project p "P" 2025-08-04 +1w {\n  timezone "UTC"\n}\nresource a "A" {\n  workinghours mon - sun 0:00 - 24:00\n  vacation 2025-08-05 - 2025-08-10\n}\n'
                 'resource b "B" {\n  workinghours mon - sun 0:00 - 24:00\n}\ntask t "T" { effort 100h allocate a { alternative b } }\n'))
+    # backward tasks with alternatives, one candidate of which never works / has too little capacity on the whole horizon
+    NEV = 'resource n "N" { vacation 2024-01-01 - 2024-03-01 }\n'
+    add("alap_alt_never", "", NEV + 'task a "A" { effort 2d allocate r { alternative n } scheduling alap end 2024-01-12-17:00 }\n')
+    add("alap_primary_never", "", NEV + 'task a "A" { effort 2d allocate n { alternative r } scheduling alap end 2024-01-12-17:00 }\n')
+    add("alap_project_alt_never", "  scheduling alap\n", NEV + 'task a "A" { effort 3d allocate r { alternative n, r2 } }\ntask b "B" { effort 1d allocate r2 depends !a }\n')
+    add("alap_nobody_works", "", NEV + 'resource n2 "N2" { vacation 2024-01-01 - 2024-03-01 }\ntask a "A" { effort 2d allocate n { alternative n2 } scheduling alap end 2024-01-12-17:00 }\n')
+    add("alap_alt_odd_hours", "", 'resource o "O" { workinghours mon 25:00 - 26:00 }\ntask a "A" { effort 1d allocate r { alternative o } scheduling alap end 2024-01-12-17:00 }\n')
     add("scen_duration_only", '  scenario plan "Plan" { scenario s1 "S1" }\n', 'task a "A" { s1:duration 3d }\ntask b "B" { s1:length 2d }\n')
     add("plain_duration", "", 'task a "A" { duration 3d }\ntask b "B" { length 2d depends !a }\n')
     add("undef_macro_date", "", 'task a "A" { effort 1d allocate r start ${nosuch} }\n')
